@@ -49,8 +49,26 @@ func corrC07(out string, seed uint64, tier string, replay string) *report {
 
 	var calls []c07call
 	errs := map[int]error{}
+	mkCount := 0
+	// what a handler returns must come back unchanged (the very same value): nil, a private error, the package's
+	// own sentinels, errors that wrap the sentinels, and an error whose Is method claims to be anything
 	mk := func(id int) func(string, string) error {
-		e := errors.New(fmt.Sprintf("handler-%d", id))
+		var e error
+		mkCount++
+		switch mkCount % 7 {
+		case 0, 1:
+			e = errors.New(fmt.Sprintf("handler-%d", id))
+		case 2:
+			e = nil
+		case 3:
+			e = crypt.ErrPasswordMismatch
+		case 4:
+			e = fmt.Errorf("handler-%d: %w", id, crypt.ErrPasswordMismatch)
+		case 5:
+			e = fmt.Errorf("handler-%d: %w", id, crypt.ErrHash)
+		case 6:
+			e = &isAnything{id}
+		}
 		errs[id] = e
 		return func(h, p string) error {
 			calls = append(calls, c07call{id, h, p})
@@ -200,16 +218,12 @@ func corrC07(out string, seed uint64, tier string, replay string) *report {
 		for _, c := range calls {
 			cl = append(cl, "("+coqNat(c.id)+", "+coqStr(c.hash)+", "+coqStr(c.pw)+")")
 		}
-		verdict := "None"
-		if err != crypt.ErrHash {
-			for id, e := range errs {
-				if e == err {
-					verdict = "(Some " + coqNat(id) + ")"
-				}
-			}
-			if verdict == "None" {
-				verdict = "(Some 999999%nat)"
-			}
+		verdict := "(Some 999999%nat)"
+		switch {
+		case len(calls) == 0 && err == crypt.ErrHash:
+			verdict = "None"
+		case len(calls) >= 1 && err == errs[calls[len(calls)-1].id]:
+			verdict = "(Some " + coqNat(calls[len(calls)-1].id) + ")"
 		}
 		cs2.add("(("+coqList(hs)+", "+coqStr(h)+", "+coqStr(pw)+"), ("+verdict+", "+coqList(cl)+"))",
 			map[string]interface{}{"history": hist, "hash": h, "pw": pw})
@@ -262,3 +276,10 @@ func corrC07(out string, seed uint64, tier string, replay string) *report {
 	rep.Rule = "prefix part: every string is checked with a recording handler registered under each of its own prefixes plus \"_\" and \"\", so the handler that fires reveals the prefix computed; non-trivial = contains one of $ _ ,. history part: recording handlers registered in the given order after a registry reset, then one Check; non-trivial = non-empty history. Distinct by (history, hash)."
 	return rep
 }
+
+// isAnything: an error that claims to be every target (errors.Is(e, crypt.ErrHash) and errors.Is(e,
+// crypt.ErrPasswordMismatch) are both true); the dispatcher must still hand it back as it is.
+type isAnything struct{ id int }
+
+func (e *isAnything) Error() string        { return fmt.Sprintf("handler-%d (Is anything)", e.id) }
+func (e *isAnything) Is(target error) bool { return true }
